@@ -169,6 +169,9 @@ func c04alphabet(names int) []string {
 	a = append(a, gw.EvC("REGISTER p/2", gw.Register(0, 51, "p/2")),
 		gw.Ev("SUBSCRIBE p/3 + SUBACK", gw.EvC("", gw.SubscribeName(52, "p/3", 0, false)), gw.EvB("", refmqtt.EncSuback(52, 0))))
 	a = append(a, gw.EvB("broker PUBLISH w/9 q0 (no REGACK)", refmqtt.EncPublish("w/9", 0, false, false, 0, []byte("x"))))
+	// a sleep cycle ended by a CONNECT that names another client id: no new session starts, the ids predefined for
+	// the session's client stay out of bounds
+	a = append(a, gw.Ev("sleep, then wake-up CONNECT naming another client id", gw.EvC("", gw.Disconnect(60)), gw.EvC("", gw.Connect("zz", 30, false, false))))
 	return a
 }
 
